@@ -1,4 +1,6 @@
 import FlytModel.Proofs.L.Flow
+import FlytModel.Proofs.SpecC18
+import FlytModel.Proofs.CancelFree
 /-!
 # C18 — A successful run never yields the empty action, for any node kind
 
@@ -172,5 +174,71 @@ example : ((runNode exEnv 6 0 0 exSt).1.map Spec.evKey).eraseDups = [(1, 0), (2,
 theorem c18_bridge (env : Env) (fuel : Nat) (root : NodeId) (sid : StoreId) (st : RunSt) (tr : List Ev) (store : List Nat) :
     Spec.c18 { trace := tr, out := (runNode env fuel root sid st).2.2, store := store } = true :=
   (good_iff_c18 _ tr store).mp ((run_good env fuel).1 root sid st)
+
+/-! ### bridge: C18's last clause as the driver evaluates it (`Spec.c18Followed`) on the model's observation -/
+
+open Flyt.Proofs in
+/-- **A connection is always followed — on ANY action, in particular the default one**: in a run of a flat flow
+    without cancellation, a visit `(n, v)` (position `i` of the visit sequence of the trace) that returns action
+    `a` with `(n, a)` connected to `d` is followed by a visit of `d`. -/
+theorem connections_followed (env : Env) (hcf : CancelFree env)
+    (hprep : ∀ n cfg, env.arena n = .leaf cfg → cfg.prepS ≠ .absent)
+    (fuel : Nat) (root : NodeId) (st : RunSt) (hlive : st.ctx = .live)
+    (hfuel : (runNode env fuel root 0 st).2.2 ≠ .fuel)
+    {s ops} (hA : env.arena root = .flow (some s) ops) (hflat : Spec.isFlatFlow env ops s = true) :
+    FollowedKeys env ops (Spec.visitSeq (Spec.noWaits (runNode env fuel root 0 st).1)) := by
+  have hb := big_of_runNode (st' := (runNode env fuel root 0 st).2.1) rfl hfuel
+  obtain ⟨hlt, hF⟩ := flat_run_keys env fuel root st hprep hlive rfl hfuel (big_cancelFree hb hcf) hA hflat
+  have := specPath_followed env ops ((Spec.visitSeq (Spec.noWaits (runNode env fuel root 0 st).1)).length + 1) s st.visits
+    (by rw [hF _ (Nat.le_succ _)]; exact Nat.lt_succ_self _)
+  rwa [hF _ (Nat.le_succ _)] at this
+
+open Flyt.Proofs in
+/-- **`Spec.c18Followed` holds of the model's own observation** of a run on a live context, store 0, without
+    cancellation (`CancelFree env`: what the driver computes), with enough fuel, whenever every leaf of the arena
+    has a prep callback (as for `Spec.c03`: a node without any callback leaves no event, so its visit cannot be
+    seen in the trace — see the example below; generated flows satisfy this).  `storeOf`: whatever the driver
+    records as the store log (`storeLog` in `Driver.FlowFam.obsOf`). -/
+theorem c18Followed_bridge (env : Env) (hcf : CancelFree env)
+    (hprep : ∀ n cfg, env.arena n = .leaf cfg → cfg.prepS ≠ .absent)
+    (fuel : Nat) (root : NodeId) (st : RunSt) (hlive : st.ctx = .live)
+    (hfuel : (runNode env fuel root 0 st).2.2 ≠ .fuel) (storeOf : List Ev → List Nat) :
+    Spec.c18Followed env root (obsWith storeOf (runNode env fuel root 0 st)) = true :=
+  have hb := big_of_runNode (st' := (runNode env fuel root 0 st).2.1) rfl hfuel
+  spec_c18Followed_of_run env fuel root st hprep hlive rfl hfuel (big_cancelFree hb hcf) _
+
+-- the hypotheses on the example (1 —default→ 2 —default→ 3, every post returns ""), and the interesting branch:
+-- all three visits return the default action, the two connections on it are followed, the last visit has none
+example : Flyt.Proofs.CancelFree exEnv :=
+  ⟨fun _ _ => ⟨rfl, fun _ => rfl, fun _ => rfl, rfl, rfl⟩, fun _ _ => ⟨rfl, rfl, fun _ => ⟨fun _ => rfl, fun _ => rfl, rfl⟩⟩⟩
+example : ∀ n cfg, exEnv.arena n = .leaf cfg → cfg.prepS ≠ .absent := by
+  intro n cfg h
+  simp only [exEnv] at h
+  split at h
+  · cases h
+  · split at h <;> cases h
+    simp [exLeaf]
+example : Spec.isFlatFlow exEnv [⟨1, "default", some 2⟩, ⟨2, "default", some 3⟩] 1 = true ∧
+    Spec.visitSeq (Flyt.Proofs.obsWith Flyt.Proofs.storeLog (runNode exEnv 6 0 0 exSt)).trace = [(1, 0), (2, 0), (3, 0)] ∧
+    ([(1, 0), (2, 0), (3, 0)].map fun p => Spec.visitAction exEnv p.1 p.2) = [some "default", some "default", some "default"] ∧
+    Spec.c18Followed exEnv 0 (Flyt.Proofs.obsWith Flyt.Proofs.storeLog (runNode exEnv 6 0 0 exSt)) = true := by decide
+-- the predicate is not trivially true: it rejects a trace in which the batch node 2 was skipped, and one that
+-- stops after node 1
+example : Spec.c18Followed exEnv 0 ⟨[.prep 1 0 0, .post 1 0 0 (.tok 1) (.tok 2), .prep 3 0 0], .ok "default", []⟩ = false ∧
+    Spec.c18Followed exEnv 0 ⟨[.prep 1 0 0, .post 1 0 0 (.tok 1) (.tok 2)], .ok "default", []⟩ = false := by decide
+
+/-- the same flow with a node 2 that has no callback at all: its visit leaves no event -/
+def exEnvSilent : Env :=
+  { exEnv with
+    arena := fun id =>
+      if id = 0 then .flow (some 1) [⟨1, "default", some 2⟩, ⟨2, "default", some 3⟩]
+      else if id = 2 then .leaf { exLeaf with prepS := .absent, execS := .absent, postS := .absent } else .leaf exLeaf }
+
+-- why `hprep` is needed: the model does follow both connections (node 3, reachable through node 2 only, runs),
+-- but the visit of the silent node 2 is invisible in the trace, so the predicate — which sees 1 followed by 3 —
+-- is false on the model's observation
+example : Spec.visitSeq (runNode exEnvSilent 6 0 0 exSt).1 = [(1, 0), (3, 0)] ∧
+    Spec.c18Followed exEnvSilent 0 (Flyt.Proofs.obsWith Flyt.Proofs.storeLog (runNode exEnvSilent 6 0 0 exSt)) = false := by
+  decide
 
 end Flyt.Props.C18
